@@ -334,13 +334,18 @@ def reuse_other_cases(dss, configs, schemes, rng, flags=(1,), every=None, env="n
             D0 = dss[(k * 7 + 3) % len(dss)]
             if reverse and k % 3:
                 D0 = [list(reversed(r)) for r in D]          # same universe, opposite opinions
+            same = False
+            if k % 4 == 1 and len(D) > 1:
+                # the SAME rankings in another order (an equal dataset whose elements are numbered differently), same scheme
+                D0 = list(reversed(D))
+                same = True
             for f in flags:
                 if cfg == "ExactCplex(opt)" and f == 0:
                     continue
                 out.append({"D": D, "naming": ["ints", "letters"][k % 2], "sch": list(schemes[(k + ci) % len(schemes)]),
                             "cfg": cfg, "flag": f, "env": e, "kseed": k,
                             "reuse": {"kind": "other", "D0": D0,
-                                      "sch0": list(schemes[(k + ci + (k % 2)) % len(schemes)])}})
+                                      "sch0": list(schemes[(k + ci + (0 if same else k % 2)) % len(schemes)])}})
     return out
 
 
